@@ -121,6 +121,7 @@ func ruleC12Shapes(c *ctx.Ctx, r *core.Reporter) {
 	r.Check(pat(ov, `µo[µs.Name.Name] = overrideInfo{purgeMethods: µp}`), "overlay:type-recorded", c.Pos(ov.Pos()), "an overlay type is recorded, with purgeMethods when it is purged")
 	r.Check(pat(ov, `for _, µn := range µs.Names { µµa; µo[µn.Name] = overrideInfo{} }`), "overlay:every-name-of-value-spec", c.Pos(ov.Pos()), "every name of a multi-name var/const specification is recorded")
 	r.Check(pat(ov, "for _, µn := range µs.Names { if µn.Name == `_` { µµa; continue }; µµb }") || pat(ov, "for _, µn := range µs.Names { if µn.Name != `_` { µµa } }"), "overlay:blank-is-not-an-override", c.Pos(ov.Pos()), "the blank identifier in an overlay value specification is not recorded as an override (it would delete every blank declaration of the original, with the side effects of their initialisers)")
+	r.Check(pat(ov, `for µj, µspec := range µd.Specs { µp := µpd || astutil.Purge(µspec); µµrest }`), "overlay:purge-decided-per-spec", c.Pos(ov.Pos()), "whether a specification of a group is purged is decided afresh for each specification (the declaration's directive or its own), never carried over from an earlier one")
 	r.Check(pat(ov, `if astutil.OverrideSignature(µd) { µoi.overrideSignature = µd; µpurge = true }`), "overlay:override-signature-removes-stub", c.Pos(ov.Pos()), "an override-signature stub is recorded and removed from the overlay")
 	// original side
 	r.Check(pat(og, `if µinfo.keepOriginal { µµa; µrm = false }`), "original:keep-original", c.Pos(og.Pos()), "keep-original renames instead of removing")
